@@ -44,6 +44,15 @@ def oracle_F(ops):
     return " ; ".join(outs)
 
 
+# what the Any stores as a function of the form of setParam's argument (independent copy of Model.store_of): arrays and
+# literals decay to const char* (4), an Any argument contributes its payload type, an empty Any empties, no promotion
+STORE_OF = {0: 0, 1: 1, 2: 2, 3: 3, 4: 4, 5: 4, 6: 4, 7: 0, 8: 1, 9: 2, 10: None, 11: 5, 12: 6}
+LITS = [7, 41, 305, 4096]
+FORMS = {"0": "int", "1": "float", "2": "std::string", "3": "vec3f", "4": "string literal const char[N]", "5": "char[8] variable",
+         "6": "const char* variable", "7": "Any(int)", "8": "Any(float)", "9": "Any(std::string)", "10": "empty Any", "11": "short",
+         "12": "enum"}
+
+
 def oracle_P(ops):
     order, st, outs = [], {}, []     # st[name] = [data or None, query]
     for tok in ops:
@@ -53,7 +62,7 @@ def oracle_P(ops):
         elif f[0] == "set":
             n, t, v = int(f[1]), int(f[2]), int(f[3])
             if n not in st: st[n] = [None, False]; order.append(n)
-            st[n][0] = (t, v)
+            st[n][0] = None if STORE_OF[t] is None else (STORE_OF[t], v)
         elif f[0] == "get":
             n, t, d = int(f[1]), int(f[2]), int(f[3])
             if n in st and st[n][0] is not None and st[n][0][0] == t:
@@ -166,8 +175,14 @@ def gen_P(r, maxlen, nnames):
     for _ in range(r.randint(1, maxlen)):
         n = r.randint(1, nnames) if r.random() < 0.9 else r.randint(5, 7)   # 5..7: long (heap-allocated) names
         c = r.random()
-        if c < 0.30: ops.append("set:%d:%d:%d" % (n, r.randint(0, 3), r.randint(1, 99)))
-        elif c < 0.62: ops.append("get:%d:%d:%d" % (n, r.randint(0, 3), r.randint(100, 199)))
+        if c < 0.30:
+            # half of the writes use an argument form whose static type differs from the stored type (or short/enum)
+            form = r.randint(0, 3) if r.random() < 0.5 else r.randint(4, 12)
+            ops.append("set:%d:%d:%d" % (n, form, r.choice(LITS) if form == 4 else r.randint(1, 99)))
+        elif c < 0.62:
+            # reads: the four plain types, const char* more often (the stored type of three forms), short, enum
+            tag = r.choice([0, 1, 2, 3, 4, 4, 4, 5, 6, 0, 1, 2])
+            ops.append("get:%d:%d:%d" % (n, tag, r.randint(100, 199)))
         elif c < 0.74: ops.append("rm:%d" % n)
         elif c < 0.82: ops.append("has:%d" % n)
         elif c < 0.90: ops.append("reset")
@@ -335,6 +350,9 @@ def run(ctx):
         ops = c.split()[1:]
         for t in ops:
             hist[c[0] + ":" + t.split(":")[0]] = hist.get(c[0] + ":" + t.split(":")[0], 0) + 1
+            if c[0] == "P" and t.startswith("set:"):
+                kf = "P:set:" + t.split(":")[2]
+                hist[kf] = hist.get(kf, 0) + 1
         # non-trivial: at least one mutation took effect and at least one read hit/missed
         if len(set(s.split("|")[1] for s in ml.split(" ; "))) >= 3:
             ctx.nontriv(c)
@@ -344,10 +362,13 @@ def run(ctx):
                                 "excluded": {"operator[] const": "cannot be instantiated (push_back on a const vector); re-established on "
                                                                  "every run by fact ff_const_index_uninstantiable"},
                                 "ParameterizedObject": "declares no const member function (closed list coq/C10/FactsDecls.v)"}
+    ctx.cov["setParam_argument_forms"] = {"forms": FORMS, "stored_type_of_form": STORE_OF,
+                                          "read_types": ["int", "float", "std::string", "vec3f", "const char*", "short", "enum"],
+                                          "set_by_form": {f: hist.get("P:set:" + f, 0) for f in FORMS}}
     ctx.cov["case_mix"] = {"corpus": ncorp, "random": nrand, "exhaustive_flatmap_histories": len(exh)}
     ctx.rule = ("histories over key/name alphabets of size 2-4 (random, length<=60) plus all FlatMap histories up to length %d over a "
                 "14-op alphabet on 2 keys (incl. the const overloads through a const FlatMap&); each run on FlatMap<int,int>, <string,string>, <string,vector<int>> and ParameterizedObject "
-                "(int/float/string/vec3f values); plus FlatMap<float,int>/<short,int>/<unsigned char,int>/<string,int> called with double / out-of-range and negative int / const char* "
+                "(values set as int/float/string/vec3f and through every argument form whose static type differs from what Any stores: string literals of 4 lengths, char[8], const char*, Any holding int/float/string, empty Any, short, enum; read back as int/float/string/vec3f/const char*/short/enum); plus FlatMap<float,int>/<short,int>/<unsigned char,int>/<string,int> called with double / out-of-range and negative int / const char* "
                 "arguments (random length<=40 and all histories up to length %d over a 10-op alphabet, two spellings per key); "
                 "non-trivial = the container passed through >=3 distinct contents" % (ctx.pick(4, 5), ctx.pick(3, 4)))
     for c in cases[ncorp:ncorp + 3]:
